@@ -74,13 +74,19 @@ def case(g, tier, ci):
             if st["op"] in ("sq.setDelay", "sq.setFilter"):
                 for sub, _ in subs.values():
                     ops.append({**st, "id": sub})
-    # refusals
+    if ci % 4 == 1:
+        # positions as a loop over np.arange hands them over: numpy integers (the forged structure is keyed by plain ints)
+        for o in ops:
+            if o["op"] in ("sq.addElement", "sq.addSub"):
+                o["_pos_as"] = "npint"
+    # refusals (at a new position, or at an occupied one: its entry and settings stay what they are)
     k = r.random()
+    rpos = P + 1 if r.random() < 0.5 else r.randint(1, P)
     if k < 0.12 and subs:
-        ops.append({"op": "sq.addSub", "id": "s", "pos": P + 1, "sub": "s", "_errclass": True})         # nested
+        ops.append({"op": "sq.addSub", "id": "s", "pos": rpos, "sub": "s", "_errclass": True})         # nested
     elif k < 0.2:
         ops += [{"op": "sq.new", "id": "w"}, {"op": "sq.setSR", "id": "w", "v": enc(SR * 2 if r.random() < 0.5 else SR * (1 + 2 ** -19))},
-                {"op": "sq.addSub", "id": "s", "pos": P + 1, "sub": "w", "_errclass": True}]            # other sample rate
+                {"op": "sq.addSub", "id": "s", "pos": rpos, "sub": "w", "_errclass": True}]            # other sample rate
     elif k < 0.26 and subs:
         # element + subsequence mixed in the offered sequence
         eid = g.fresh("e")
